@@ -721,6 +721,12 @@ func c14Ranking(c *Ctx) {
 			case e.Op == an.OpCall && strings.HasPrefix(e.Name, "dyn:") && len(e.Args) == 2:
 				vv := v
 				arg := e.Args[1]
+				if lst := e.Args[0]; lst.Op == an.OpElem {
+					// a package-level table of class predicates, read from the package initialiser
+					if names, ok := c.globalFuncTable(lst); ok {
+						classOrder = strings.Join(names, ",")
+					}
+				}
 				if lst := e.Args[0]; lst.Op == an.OpElem && lst.Args[0].Op == an.OpStruct {
 					var names []string
 					for _, f := range lst.Args[0].Args {
@@ -856,11 +862,12 @@ func c14Compose(c *Ctx) {
 			sv := p.Of(calls[0].Common().Args[1])
 			fact = "servers = " + sv.String()
 			if auto {
-				// append([]netip.Addr{server}, r.Servers...)
-				ok = sv.Op == an.OpAppend && len(sv.Args) == 2 && sv.Args[0].Op == an.OpStruct && sv.Args[0].Name == "list" && len(sv.Args[0].Args) == 1 &&
-					sv.Args[1].IsField("Servers")
+				// a fresh slice holding [current()#0] followed by r.Servers...: append([]netip.Addr{server}, r.Servers...),
+				// or the same built step by step on make([]netip.Addr, 0, n)
+				items, fresh := flattenAppend(sv)
+				ok = fresh && len(items) == 2 && !items[0].spread && items[1].spread && items[1].e.IsField("Servers") && items[1].e.Args[0].Op == an.OpParam
 				if ok {
-					b, i := stripExtract(sv.Args[0].Args[0])
+					b, i := stripExtract(items[0].e)
 					ok = i == 0 && exprCallIs(b, PkgPlugin, "RDNSS", "current")
 				}
 			} else {
@@ -1235,4 +1242,48 @@ func listingErrors(c *Ctx, rule string, fns [][3]string) {
 			"a listing failure is swallowed: the RA silently carries no (or fewer) wildcard options")
 	}
 	c.R.Check(n >= 2, rule, "listing:error-sites", "", "", fmt.Sprintf("%d error-returning call site(s)", n), ">= 2", "anchor-missing")
+}
+
+type appendItem struct {
+	e      *an.Expr
+	spread bool // a whole slice appended with ...
+}
+
+// flattenAppend lists what a chain of append calls puts into a slice, in
+// order, and reports whether the chain starts from a fresh empty slice (a
+// literal list, make(T, 0, n) or nil) — never from existing state.
+func flattenAppend(e *an.Expr) ([]appendItem, bool) {
+	switch {
+	case e == nil:
+		return nil, false
+	case e.Op == an.OpStruct && e.Name == "list":
+		var out []appendItem
+		for _, a := range e.Args {
+			out = append(out, appendItem{a, false})
+		}
+		return out, true
+	case e.Op == an.OpMake:
+		if len(e.Args) >= 1 {
+			if k, isC := e.Args[0].ConstInt(); isC && k == 0 {
+				return nil, true
+			}
+		}
+		return nil, false
+	case exprIsNil(e) || exprIsZero(e):
+		return nil, true
+	case e.Op == an.OpAppend && len(e.Args) == 2:
+		base, fresh := flattenAppend(e.Args[0])
+		if !fresh {
+			return nil, false
+		}
+		add := e.Args[1]
+		if add.Op == an.OpStruct && add.Name == "list" {
+			for _, a := range add.Args {
+				base = append(base, appendItem{a, false})
+			}
+			return base, true
+		}
+		return append(base, appendItem{add, true}), true
+	}
+	return nil, false
 }
